@@ -71,7 +71,7 @@ Lemma m_open_spec w P bits w' e : plan_ok (w_plan w) -> m_open w P bits = (w', e
 Proof.
   intros Hp. unfold m_open, take.
   destruct (w_plan w 0 K_MOPEN (w_cnt w 0 K_MOPEN)) as [[e0 s0]|] eqn:Ef.
-  - intros H. inversion H; subst. destruct (Hp _ _ _ _ _ Ef) as [_ H1].
+  - intros H. inversion H; subst. destruct (Hp _ _ _ _ _ Ef) as [[_ H1] _].
     assert (0 < e) by (apply H1; unfold K_MOPEN, FWRITE, FREAD; lia).
     rewrite note_err_fail, note_err_open. cbn. rewrite (proj2 (Z.eqb_neq e 0)) by lia. repeat split; try lia.
   - assert (Hbad : forall E w1, 0 < E -> w_fail w1 = w_fail w -> w_open w1 = w_open w -> (note_err w1 E, E) = (w', e) ->
@@ -98,7 +98,7 @@ Lemma m_set_size_spec w bits size w' e : plan_ok (w_plan w) -> m_set_size w bits
 Proof.
   intros Hp. unfold m_set_size, take.
   destruct (w_plan w 0 K_MSETSIZE (w_cnt w 0 K_MSETSIZE)) as [[e0 s0]|] eqn:Ef.
-  - intros H. inversion H; subst. destruct (Hp _ _ _ _ _ Ef) as [_ H1].
+  - intros H. inversion H; subst. destruct (Hp _ _ _ _ _ Ef) as [[_ H1] _].
     assert (0 < e) by (apply H1; unfold K_MSETSIZE, FWRITE, FREAD; lia).
     rewrite note_err_fail, note_err_open. cbn. rewrite (proj2 (Z.eqb_neq e 0)) by lia. repeat split; try lia; try discriminate.
   - destruct (can_write bits); cbn [negb].
@@ -112,7 +112,7 @@ Lemma m_close_spec w P w' e : plan_ok (w_plan w) -> m_close w P = (w', e) ->
 Proof.
   intros Hp. unfold m_close, take.
   destruct (w_plan w 0 K_MCLOSE (w_cnt w 0 K_MCLOSE)) as [[e0 s0]|] eqn:Ef.
-  - intros H. inversion H; subst. destruct (Hp _ _ _ _ _ Ef) as [_ H1].
+  - intros H. inversion H; subst. destruct (Hp _ _ _ _ _ Ef) as [[_ H1] _].
     assert (0 < e) by (apply H1; unfold K_MCLOSE, FWRITE, FREAD; lia).
     rewrite note_err_fail, note_err_open. cbn. rewrite (proj2 (Z.eqb_neq e 0)) by lia. repeat split; lia.
   - intros H. inversion H; subst. cbn. repeat split; lia.
@@ -253,7 +253,7 @@ Proof.
   destruct wr.
   - unfold m_write_at, take.
     destruct (w_plan w q (rw_kind coll true) (w_cnt w q (rw_kind coll true))) as [[e0 s0]|] eqn:Ef.
-    + destruct (Hp _ _ _ _ _ Ef) as [_ H1].
+    + destruct (Hp _ _ _ _ _ Ef) as [[_ H1] _].
       assert (0 < e0) by (apply H1; destruct coll; unfold rw_kind, K_MWRITEATALL, K_MWRITEAT, FWRITE, FREAD; lia).
       rewrite (proj2 (Z.eqb_neq e0 SUCC)) by (unfold SUCC, ocB_MPI_SUCCESS; lia). cbn [andb].
       intros H'. inversion H'; subst. cbn [r_cls r_ocount r_buf].
@@ -277,7 +277,7 @@ Proof.
         fin.
   - unfold m_read_at, take.
     destruct (w_plan w q (rw_kind coll false) (w_cnt w q (rw_kind coll false))) as [[e0 s0]|] eqn:Ef.
-    + destruct (Hp _ _ _ _ _ Ef) as [_ H1].
+    + destruct (Hp _ _ _ _ _ Ef) as [[_ H1] _].
       assert (0 < e0) by (apply H1; destruct coll; unfold rw_kind, K_MREADATALL, K_MREADAT, FWRITE, FREAD; lia).
       rewrite (proj2 (Z.eqb_neq e0 SUCC)) by (unfold SUCC, ocB_MPI_SUCCESS; lia). cbn [andb].
       intros H'. inversion H'; subst. cbn [r_cls r_ocount r_buf].
